@@ -9,7 +9,7 @@ def ob(id, entry, cases, expect, bounds, **kw):
     d.update(kw); return d
 OBLIGATIONS = [
     ob('C15.rot', 'h_c15_grains', [(1, 0)], ['the only pre-existing state a random model may touch is the world\'s engine', 'the number of draws depends only on the model state, the composition number and the grain count',
-       'random grain orientation is orthonormal (R R^T = I)', 'random grain orientation has determinant +1', 'end'], '1 grain (quick) / 2 grains (thorough)', cases_thorough=[(1, 0), (2, 0)], time_cap=270, libm_mono=False),
+       'random grain orientation is orthonormal (R R^T = I)', 'random grain orientation has determinant +1', 'end'], '1 grain (quick) / 2 grains (thorough)', cases_thorough=[(1, 0), (2, 0)], time_cap=270, libm_mono=False, ackermann=True),
     ob('C15.size', 'h_c15_grains', [(1, 1), (2, 1)], ['grain count is preserved', 'normalised grain sizes sum to one', 'fixed grain sizes are returned as given', 'random grain sizes lie in [0,1)', 'end'], '1..2 grains (3 thorough)', cases_thorough=[(1, 1), (2, 1), (3, 1)]),
     ob('C15.comp', 'h_c15_composition', [()], ['one draw per random composition', 'random composition lies within its configured bounds', 'end'], 'all bounds with max > min'),
 ]
